@@ -56,6 +56,35 @@ theorem equal3C_short (c : Cmp α) (a b : List α) (h : b.length < a.length) :
       · exact ih ys this
       · right; rfl
 
+/-- the `size() == size() && std::equal(b, e, b2)` idiom: the size test makes the three-iterator
+    `std::equal` safe -/
+theorem call_equal3C_guard {τ : Type} [Faulty τ] (a b : List α) (k : Bool → τ) (e : τ) :
+    (if decide (a.length = b.length) = true then call (equal3C (keyCmp key same) a b) k else e) =
+      (if decide (a.length = b.length) = true then k (equal3 key a b) else e) := by
+  by_cases h : a.length = b.length
+  · simp only [h, decide_true, if_true]
+    rw [equal3C_key key same a b (by omega)]; rfl
+  · simp [h]
+
+theorem call_equal3C_guard' {τ : Type} [Faulty τ] (a b : List α) (k : Bool → τ) (e : τ) :
+    (if decide (b.length = a.length) = true then call (equal3C (keyCmp key same) a b) k else e) =
+      (if decide (a.length = b.length) = true then k (equal3 key a b) else e) := by
+  have : decide (b.length = a.length) = decide (a.length = b.length) := by
+    by_cases h : a.length = b.length
+    · simp [h]
+    · have : ¬ b.length = a.length := fun h' => h h'.symm
+      simp [h, this]
+  rw [this]; exact call_equal3C_guard key same a b k e
+
+theorem ite_some_and (g x : Bool) : (if g = true then some x else some false) = some (g && x) := by
+  cases g <;> rfl
+theorem ite_some_or (g x : Bool) : (if g = true then some true else some x) = some (g || x) := by
+  cases g <;> rfl
+theorem ite_some_not_and (g x : Bool) : (if g = true then some false else some x) = some (!g && x) := by
+  cases g <;> rfl
+theorem ite_some_not_or (g x : Bool) : (if g = true then some x else some true) = some (!g || x) := by
+  cases g <;> rfl
+
 theorem equal4C_key (a b : List α) : equal4C (keyCmp key same) a b = equal4 key a b := by
   unfold equal4C equal4
   by_cases h : a.length = b.length
@@ -63,26 +92,64 @@ theorem equal4C_key (a b : List α) : equal4C (keyCmp key same) a b = equal4 key
   · have : (a.length == b.length) = false := by simp [h]
     simp [this]
 
-/-! ### `dominating` -/
+/-! ### `dominating`
 
-theorem dominating_bridge (o : FOps α) (a b : List α) :
-    Gen.dominating (keyCmp key same) o a b = some (dominating key a b) := by
-  unfold Gen.dominating dominating
-  have hinit : (decide (a.length ≠ 0) && !decide (b.length ≠ 0)) = (!a.isEmpty && b.isEmpty) := by
-    cases a <;> cases b <;> simp
-  simp only [hinit, keyCmp_gt, keyCmp_lt, keyCmp_ge, keyCmp_le, keyCmp_ne, keyCmp_eq]
-  clear hinit
-  generalize (!a.isEmpty && b.isEmpty) = ob
+  The generated loop body is compared with a canonical step function ITERATION BY ITERATION
+  (`hb` below, a case analysis that never mentions the text of the body), so that rewrites of the
+  body that do the same thing at every index (branches in another order, `<`/`>` exchanged with
+  swapped operands, the bound written differently) still prove. -/
+
+/-- one iteration of the scan of `dominating`: `>` sets the flag, `<` leaves with `false` -/
+def domStep (a b : List α) (i : Nat) (ob : Bool) : Step Bool Bool :=
+  rd a i fun x => rd b i fun y =>
+    if sgt key x y then .next true else if slt key x y then .ret false else .next ob
+
+theorem domLoop_canon (a b : List α) (ob : Bool) :
+    (forIdx (min a.length b.length) (domStep key a b) ob).andThen (fun ob => some ob) =
+      some (domLoop key a b ob) := by
   induction a generalizing b ob with
   | nil => simp [domLoop]
   | cons x xs ih =>
     cases b with
     | nil => simp [domLoop]
     | cons y ys =>
-      simp only [List.length_cons, Nat.succ_min_succ, forIdx_succ, rd_cons_zero, rd_cons_succ, domLoop]
+      simp only [List.length_cons, Nat.succ_min_succ, forIdx_succ, domStep, rd_cons_zero, rd_cons_succ, domLoop]
       by_cases h1 : sgt key x y = true <;> by_cases h2 : slt key x y = true <;>
         simp only [h1, h2, if_true, if_false, andThen_ret, andThen_fault, Bool.false_eq_true] <;>
         first | exact ih _ _ | rfl
+
+theorem domLoop_of_body (a b : List α) (n : Nat) (body : Nat → Bool → Step Bool Bool)
+    (k : Bool → Option Bool) (hn : n = min a.length b.length)
+    (hb : ∀ i ob, body i ob = domStep key a b i ob) (hk : ∀ ob, k ob = some ob) (ob : Bool) :
+    (forIdx n body ob).andThen k = some (domLoop key a b ob) := by
+  have e1 : body = domStep key a b := by funext i ob; exact hb i ob
+  have e2 : k = fun ob => some ob := by funext ob; exact hk ob
+  subst hn; rw [e1, e2]; exact domLoop_canon key a b ob
+
+theorem sgt_slt_excl (x y : α) : ¬ (sgt key x y = true ∧ slt key x y = true) := by
+  simp only [sgt, slt, decide_eq_true_eq]; omega
+
+theorem dominating_bridge (o : FOps α) (a b : List α) :
+    Gen.dominating (keyCmp key same) o a b = some (dominating key a b) := by
+  unfold Gen.dominating dominating
+  simp only [keyCmp_gt, keyCmp_lt, keyCmp_ge, keyCmp_le, keyCmp_ne, keyCmp_eq]
+  refine (domLoop_of_body key a b _ _ _ ?hn ?hb ?hk _).trans ?init
+  case hn => first | rfl | omega
+  case hk => intro ob; rfl
+  case hb =>
+    intro i ob
+    simp only [domStep, rd]
+    cases a[i]? <;> cases b[i]? <;> simp only [] <;> try rfl
+    all_goals (
+      rename_i x y
+      have hx := sgt_slt_excl key x y
+      have hy := sgt_slt_excl key y x
+      simp only [sgt, slt, sge, sle, seq, sne, decide_eq_true_eq] at *
+      repeat' split
+      all_goals first | rfl | omega)
+  case init =>
+    congr 2
+    cases a <;> cases b <;> simp
 
 end
 
@@ -118,23 +185,50 @@ theorem zipLoop_eq {ρ : Type} (op : F → F → F) (a b : List F) :
       simp only [vzipStep, vzip]
       cases vzip op xs ys <;> rfl
 
+theorem zipLoop_of_body (op : F → F → F) (a b : List F) (n : Nat)
+    (body : Nat → List F → Step (List F) (List F)) (k : List F → Option (List F))
+    (hn : n = a.length) (hb : ∀ i s, body i s = zipBody op b i s) (hk : ∀ s, k s = some s) :
+    (forIdx n body a).andThen k = vzip op a b := by
+  have e1 : body = zipBody op b := by funext i s; exact hb i s
+  have e2 : k = fun s => some s := by funext s; exact hk s
+  subst hn; rw [e1, e2, zipLoop_eq]; unfold vzipStep; cases vzip op a b <;> rfl
+
+/-- per-iteration equivalence with `zipBody` (reads in either order, then the write) -/
+syntax "c18_zip_step" : tactic
+macro_rules
+  | `(tactic| c18_zip_step) => `(tactic| (
+      intro i s
+      first
+        | rfl
+        | (simp only [zipBody, rd, wr]
+           cases hb : (_ : List _)[i]? <;> cases hs : s[i]? <;> simp_all)))
+
 theorem addAssign_bridge (c : Cmp F) (o : FOps F) (a b : List F) :
     Gen.addAssign c o a b = vadd o a b := by
   unfold Gen.addAssign vadd
-  show (forIdx a.length (zipBody o.add b) a).andThen _ = _
-  rw [zipLoop_eq]; unfold vzipStep; cases vzip o.add a b <;> rfl
+  try simp only []
+  refine zipLoop_of_body o.add a b _ _ _ ?hn ?hb ?hk
+  case hn => first | rfl | omega
+  case hk => intro s; rfl
+  case hb => c18_zip_step
 
 theorem subAssign_bridge (c : Cmp F) (o : FOps F) (a b : List F) :
     Gen.subAssign c o a b = vsub o a b := by
   unfold Gen.subAssign vsub
-  show (forIdx a.length (zipBody o.sub b) a).andThen _ = _
-  rw [zipLoop_eq]; unfold vzipStep; cases vzip o.sub a b <;> rfl
+  try simp only []
+  refine zipLoop_of_body o.sub a b _ _ _ ?hn ?hb ?hk
+  case hn => first | rfl | omega
+  case hk => intro s; rfl
+  case hb => c18_zip_step
 
 theorem mulAssign_bridge (c : Cmp F) (o : FOps F) (a b : List F) :
     Gen.mulAssign c o a b = vmul o a b := by
   unfold Gen.mulAssign vmul
-  show (forIdx a.length (zipBody o.mul b) a).andThen _ = _
-  rw [zipLoop_eq]; unfold vzipStep; cases vzip o.mul a b <;> rfl
+  try simp only []
+  refine zipLoop_of_body o.mul a b _ _ _ ?hn ?hb ?hk
+  case hn => first | rfl | omega
+  case hk => intro s; rfl
+  case hb => c18_zip_step
 
 theorem opAdd_bridge (c : Cmp F) (o : FOps F) (a b : List F) : Gen.opAdd c o a b = vadd o a b := by
   unfold Gen.opAdd; rw [addAssign_bridge]; cases vadd o a b <;> rfl
@@ -189,27 +283,87 @@ theorem innerProductO_dist (o : FOps F) (acc : F) (a b : List F) :
     | nil => rfl
     | cons y ys => simp only [innerProductO, distLoop, ih]
 
+/-- one iteration of a hand-written taxicab loop `d += std::fabs(f1[i] - f2[i])` -/
+def distStep (o : FOps F) (a b : List F) (i : Nat) (d : F) : Step F F :=
+  rd a i fun x => rd b i fun y => .next (o.add d (o.abs (o.sub x y)))
+
+theorem distLoop_canon (o : FOps F) (a b : List F) (acc : F) :
+    (forIdx a.length (distStep o a b) acc).andThen (fun d => some d) = distLoop o acc a b := by
+  induction a generalizing b acc with
+  | nil => simp [distLoop]
+  | cons x xs ih =>
+    cases b with
+    | nil => simp [distLoop, forIdx_succ, distStep]
+    | cons y ys =>
+      simp only [List.length_cons, forIdx_succ, distStep, rd_cons_zero, rd_cons_succ, distLoop]
+      exact ih _ _
+
+theorem distLoop_of_body (o : FOps F) (a b : List F) (n : Nat) (body : Nat → F → Step F F)
+    (k : F → Option F) (hn : n = a.length) (hb : ∀ i d, body i d = distStep o a b i d)
+    (hk : ∀ d, k d = some d) (acc : F) :
+    (forIdx n body acc).andThen k = distLoop o acc a b := by
+  have e1 : body = distStep o a b := by funext i d; exact hb i d
+  have e2 : k = fun d => some d := by funext d; exact hk d
+  subst hn; rw [e1, e2]; exact distLoop_canon o a b acc
+
 theorem distance_bridge (c : Cmp F) (o : FOps F) (a b : List F) : Gen.distance c o a b = distance o a b := by
-  simp only [Gen.distance, innerProductO_dist, distance, bitsZero]
-  cases distLoop o (o.lit 0) a b <;> rfl
+  first
+    | (simp only [Gen.distance, innerProductO_dist, distance, bitsZero]
+       cases distLoop o (o.lit 0) a b <;> rfl)
+    | (unfold Gen.distance distance
+       simp only [bitsZero]
+       refine distLoop_of_body o a b _ _ _ ?hn ?hb ?hk _
+       case hn => first | rfl | omega
+       case hk => intro d; rfl
+       case hb =>
+         intro i d
+         first
+           | rfl
+           | (simp only [distStep, rd]
+              cases a[i]? <;> cases b[i]? <;> rfl))
 
 theorem combine_bridge (c : Cmp F) (o : FOps F) (a b : List F) : Gen.combine c o a b = some (combine a b) := by
   simp only [Gen.combine, combine]
+
+/-- one iteration of `almost_equal` on vectors -/
+def aeqStep (c : Cmp F) (o : FOps F) (e : F) (a b : List F) (i : Nat) (_u : Unit) : Step Unit Bool :=
+  rd a i fun x => rd b i fun y => if aeqSpec c o x y e then .next () else .ret false
+
+theorem aeqLoop_canon (c : Cmp F) (o : FOps F) (e : F) (a b : List F) :
+    (forIdx a.length (aeqStep c o e a b) ()).andThen (fun _ => some true) = vaeq c o e a b := by
+  induction a generalizing b with
+  | nil => simp [vaeq]
+  | cons x xs ih =>
+    cases b with
+    | nil => simp [vaeq, forIdx_succ, aeqStep]
+    | cons y ys =>
+      simp only [List.length_cons, forIdx_succ, aeqStep, rd_cons_zero, rd_cons_succ, vaeq]
+      cases aeqSpec c o x y e <;>
+        simp only [if_true, if_false, andThen_ret, Bool.false_eq_true] <;>
+        first | exact ih _ | rfl
+
+theorem aeqLoop_of_body (c : Cmp F) (o : FOps F) (e : F) (a b : List F) (n : Nat)
+    (body : Nat → Unit → Step Unit Bool) (k : Unit → Option Bool)
+    (hn : n = a.length) (hb : ∀ i u, body i u = aeqStep c o e a b i u) (hk : ∀ u, k u = some true) :
+    (forIdx n body ()).andThen k = vaeq c o e a b := by
+  have e1 : body = aeqStep c o e a b := by funext i u; exact hb i u
+  have e2 : k = fun _ => some true := by funext u; exact hk u
+  subst hn; rw [e1, e2]; exact aeqLoop_canon c o e a b
 
 theorem almostEqual_bridge (c : Cmp F) (o : FOps F) (a b : List F) (e : F) :
     Gen.almostEqual c o a b e = vaeq c o e a b := by
   unfold Gen.almostEqual
   simp only [almostEqualS_bridge, call_some]
-  induction a generalizing b with
-  | nil => simp [vaeq]
-  | cons x xs ih =>
-    cases b with
-    | nil => simp [vaeq, forIdx_succ]
-    | cons y ys =>
-      simp only [List.length_cons, forIdx_succ, rd_cons_zero, rd_cons_succ, vaeq]
-      cases aeqSpec c o x y e <;>
-        simp only [Bool.not_true, Bool.not_false, if_true, if_false, andThen_ret, Bool.false_eq_true] <;>
-        first | exact ih _ | rfl
+  refine aeqLoop_of_body c o e a b _ _ _ ?hn ?hb ?hk
+  case hn => first | rfl | omega
+  case hk => intro u; rfl
+  case hb =>
+    intro i u
+    simp only [aeqStep, rd]
+    cases a[i]? <;> cases b[i]? <;> simp only [] <;> try rfl
+    all_goals (
+      rename_i x y
+      cases aeqSpec c o x y e <;> rfl)
 
 theorem copyInfix_go_false (fmt : F → String) (sep out : String) (x : F) (xs : List F) :
     copyInfix.go fmt sep false (out ++ fmt x) xs = out ++ joinSep sep ((x :: xs).map fmt) := by
